@@ -77,6 +77,10 @@ def materialise(case):
         # the same annotation listed twice (exact duplicate, as plasmid editors export them), adjacent or not
         import copy
         feats.insert(rdup.randint(0, len(feats)), copy.deepcopy(rdup.choice(feats)))
+    for f in feats:
+        # fuzzy positions (<5, >8, (5.8), 5^8, one-of(5,8)) on one feature in five: they denote the same nucleotides as exact ones
+        if rdup.random() < 0.2:
+            f["fuzzy"] = gen.fuzzy_kinds(rdup, len(f["parts"]))
     rec = {"id": "r%d" % case["i"], "seq": seq, "features": feats, "annotations": {"topology": "circular", "molecule_type": "DNA"}}
     if rng.random() < 0.5:
         rec["letters"] = {"phred_quality": [rng.randint(0, 60) for _ in range(n)]}
